@@ -111,7 +111,10 @@ structure DeclOK (cval : Cell → Ty) (d : Decl) : Prop where
   dist  : (d.fields.flatMap (·.2.strCell)).Nodup
 
 structure ClassOK (cval : Cell → Ty) (d : Decl) (ps : PState) : Prop where
-  flds  : ps.fields = d.fields.map fun fa => (fa.1, curTy (pcells ps.pending) fa.2)
+  -- every ForwardRef still standing in a field type is listed as pending (the converse need not hold:
+  -- a listed reference may already have been replaced, e.g. by the field pass of a subclass)
+  flds  : ∃ P : Cell → Bool, (∀ c, P c = true → pcells ps.pending c = true) ∧
+            ps.fields = d.fields.map fun fa => (fa.1, curTy P fa.2)
   pend  : ∀ p ∈ ps.pending, p.val = cval p.cell ∧ ∀ n ∈ p.need, n ∈ d.strNames
   loc   : ps.isLocal = d.isLocal
   ign   : ps.ignoreErr = d.isFunc
@@ -203,8 +206,8 @@ theorem unresL_congr {P Q : Cell → Bool} (as : List Ann) (h : ∀ p ∈ quoted
 end
 
 /-- what creation decides for a quoted leaf -/
-def lazyAt (cells : List (Cell × Ty)) (vis : Name → Bool) (c : Cell) (n : Name) : Bool :=
-  (lookupCell c cells).isNone && !vis n
+def lazyAt (_cells : List (Cell × Ty)) (vis : Name → Bool) (_c : Cell) (n : Name) : Bool :=
+  !vis n
 
 mutual
 theorem mkTy_eq {cval : Cell → Ty} {cells : List (Cell × Ty)} (hc : CellsOK cval cells) (vis : Name → Bool)
@@ -215,9 +218,7 @@ theorem mkTy_eq {cval : Cell → Ty} {cells : List (Cell × Ty)} (hc : CellsOK c
     have hp := hP (c, n) (by simp [quotedOf])
     simp only [AnnOK] at ha
     simp only [mkTy, refTy, unres, hp, lazyAt]
-    cases hl : lookupCell c cells with
-    | some v => simp [lookupCell_ok hc hl, ha]
-    | none => cases hv : vis n <;> simp
+    cases hv : vis n <;> simp
   | list a => simp only [mkTy, unres]; rw [mkTy_eq hc vis P a (by simpa [AnnOK] using ha) (by simpa [quotedOf] using hP)]
   | dict a => simp only [mkTy, unres]; rw [mkTy_eq hc vis P a (by simpa [AnnOK] using ha) (by simpa [quotedOf] using hP)]
   | con _ a => simp only [mkTy, unres]; rw [mkTy_eq hc vis P a (by simpa [AnnOK] using ha) (by simpa [quotedOf] using hP)]
@@ -240,7 +241,7 @@ mutual
 theorem regs_eq (cells : List (Cell × Ty)) (vis : Name → Bool) (a : Ann) :
     regs cells vis a = (quotedOf a).filter (fun p => lazyAt cells vis p.1 p.2) := by
   cases a with
-  | quoted c n => simp only [regs, quotedOf, lazyAt, List.filter]; cases (lookupCell c cells).isNone && !vis n <;> rfl
+  | quoted c n => simp only [regs, quotedOf, lazyAt, List.filter]; cases vis n <;> rfl
   | list a => simpa [regs, quotedOf] using regs_eq cells vis a
   | dict a => simpa [regs, quotedOf] using regs_eq cells vis a
   | con _ a => simpa [regs, quotedOf] using regs_eq cells vis a
@@ -538,7 +539,7 @@ theorem define_inv {cval : Cell → Ty} {s : State} {defs : List (Name × Decl)}
         exact mkField_evals_ok s.cells vis d.isFunc fa.1 fa.2 (hd.anns fa hfa) p hp
       · exact h.cells p hp
   · simp only [define, mkFields]
-    refine ParsersOK.cons ⟨?_, hpend, rfl, rfl, rfl, rfl, rfl, hd.anns⟩ h.parsers
+    refine ParsersOK.cons ⟨⟨pcells pend, fun _ hc => hc, ?_⟩, hpend, rfl, rfl, rfl, rfl, rfl, hd.anns⟩ h.parsers
     simp only
     apply List.map_congr_left
     intro fa hfa
@@ -556,72 +557,153 @@ theorem lookupCell_cons_isSome (c c' : Cell) (v : Ty) (cells : List (Cell × Ty)
     (h : (lookupCell c cells).isSome) : (lookupCell c ((c', v) :: cells)).isSome := by
   simp only [lookupCell]; split <;> simp_all
 
-theorem resolveLoop_all {cval : Cell → Ty} (vis : Name → Bool) (ie : Bool) : ∀ (ps : List Pending) (cells : List (Cell × Ty)),
-    CellsOK cval cells → (∀ p ∈ ps, p.val = cval p.cell) → (∀ p ∈ ps, p.need.all vis = true) →
-    (resolveLoop vis ie ps cells).kept = [] ∧ (resolveLoop vis ie ps cells).raised = false ∧
-    (resolveLoop vis ie ps cells).resolved = !ps.isEmpty ∧ CellsOK cval (resolveLoop vis ie ps cells).cells ∧
+/-- the resolution loop, whatever happens in it -/
+theorem resolveLoop_gen {cval : Cell → Ty} (vis : Name → Bool) (ie : Bool) : ∀ (ps : List Pending) (cells : List (Cell × Ty)),
+    CellsOK cval cells → (∀ p ∈ ps, p.val = cval p.cell) →
+    CellsOK cval (resolveLoop vis ie ps cells).cells ∧
     (∀ c, (lookupCell c cells).isSome → (lookupCell c (resolveLoop vis ie ps cells).cells).isSome) ∧
-    (∀ p ∈ ps, (lookupCell p.cell (resolveLoop vis ie ps cells).cells).isSome) := by
+    ((resolveLoop vis ie ps cells).raised = false →
+      ∀ p ∈ ps, p ∈ (resolveLoop vis ie ps cells).kept ∨ (lookupCell p.cell (resolveLoop vis ie ps cells).cells).isSome) ∧
+    (∀ p ∈ (resolveLoop vis ie ps cells).kept, p ∈ ps) ∧
+    ((∀ p ∈ ps, p.need.all vis = true) →
+      (resolveLoop vis ie ps cells).kept = [] ∧ (resolveLoop vis ie ps cells).raised = false ∧
+      (resolveLoop vis ie ps cells).resolved = !ps.isEmpty) := by
   intro ps
   induction ps with
-  | nil => intro cells hc _ _; simp [resolveLoop, hc]
+  | nil => intro cells hc _; simp [resolveLoop, hc]
   | cons p ps ih =>
-    intro cells hc hval hneed
-    have hn : p.need.all vis = true := hneed p (by simp)
-    have hv : (lookupCell p.cell cells).getD p.val = cval p.cell := by
-      cases hl : lookupCell p.cell cells with
-      | none => simpa using hval p (by simp)
-      | some v => simpa using lookupCell_ok hc hl
-    have hc' : CellsOK cval ((p.cell, (lookupCell p.cell cells).getD p.val) :: cells) := by
-      intro q hq
-      rcases List.mem_cons.mp hq with hq | hq
-      · subst hq; exact hv
-      · exact hc q hq
-    obtain ⟨i1, i2, _, i4, i5, i6⟩ := ih _ hc' (fun q hq => hval q (by simp [hq])) (fun q hq => hneed q (by simp [hq]))
-    simp only [resolveLoop, hn, Bool.or_true, if_true]
-    refine ⟨i1, i2, by simp, i4, ?_, ?_⟩
-    · intro c hs
-      exact i5 c (lookupCell_cons_isSome c _ _ cells hs)
-    · intro q hq
-      rcases List.mem_cons.mp hq with hq | hq
-      · subst hq
-        apply i5
-        simp [lookupCell]
-      · exact i6 q hq
+    intro cells hc hval
+    have hval' : ∀ q ∈ ps, q.val = cval q.cell := fun q hq => hval q (by simp [hq])
+    by_cases hn : p.need.all vis = true
+    · have hc' : CellsOK cval ((p.cell, p.val) :: cells) := by
+        intro q hq
+        rcases List.mem_cons.mp hq with hq | hq
+        · subst hq; exact hval p (by simp)
+        · exact hc q hq
+      obtain ⟨i1, i2, i3, i4, i5⟩ := ih _ hc' hval'
+      simp only [resolveLoop, hn, if_true]
+      refine ⟨i1, fun c hs => i2 c (lookupCell_cons_isSome c _ _ cells hs), ?_, ?_, ?_⟩
+      · intro hr q hq
+        rcases List.mem_cons.mp hq with hq | hq
+        · subst hq
+          exact Or.inr (i2 _ (by simp [lookupCell]))
+        · exact i3 hr q hq
+      · intro q hq; exact List.mem_cons_of_mem _ (i4 q hq)
+      · intro hall
+        obtain ⟨j1, j2, _⟩ := i5 (fun q hq => hall q (by simp [hq]))
+        exact ⟨j1, j2, by simp⟩
+    · simp only [resolveLoop, hn]
+      cases ie with
+      | true =>
+        obtain ⟨i1, i2, i3, i4, _⟩ := ih cells hc hval'
+        simp only [if_true]
+        refine ⟨i1, i2, ?_, ?_, ?_⟩
+        · intro hr q hq
+          rcases List.mem_cons.mp hq with hq | hq
+          · subst hq; exact Or.inl (by simp)
+          · rcases i3 hr q hq with h1 | h1
+            · exact Or.inl (List.mem_cons_of_mem _ h1)
+            · exact Or.inr h1
+        · intro q hq
+          rcases List.mem_cons.mp hq with hq | hq
+          · simp [hq]
+          · exact List.mem_cons_of_mem _ (i4 q hq)
+        · intro hall; exact absurd (hall p (by simp)) hn
+      | false =>
+        simp only [Bool.false_eq_true, if_false]
+        refine ⟨hc, fun _ hs => hs, ?_, fun q hq => hq, ?_⟩
+        · intro hr; exact absurd hr (by simp)
+        · intro hall; exact absurd (hall p (by simp)) hn
+
+theorem resolveLoop_unresolved (vis : Name → Bool) (ie : Bool) : ∀ (ps : List Pending) (cells : List (Cell × Ty)),
+    (resolveLoop vis ie ps cells).raised = false → (resolveLoop vis ie ps cells).resolved = false →
+    (resolveLoop vis ie ps cells).kept = ps ∧ (resolveLoop vis ie ps cells).cells = cells := by
+  intro ps
+  induction ps with
+  | nil => intro cells _ _; simp [resolveLoop]
+  | cons p ps ih =>
+    intro cells hr hres
+    by_cases hn : p.need.all vis = true
+    · simp [resolveLoop, hn] at hres
+    · cases ie with
+      | true =>
+        simp only [resolveLoop, hn, if_true, Bool.false_eq_true, if_false] at hr hres ⊢
+        obtain ⟨i1, i2⟩ := ih cells hr hres
+        exact ⟨by rw [i1], i2⟩
+      | false => simp [resolveLoop, hn] at hr
+
+/-- the field pass: ForwardRefs whose object is evaluated are replaced by their (correct) value -/
+def stillRef (P : Cell → Bool) (cells : List (Cell × Ty)) : Cell → Bool :=
+  fun c => P c && (lookupCell c cells).isNone
 
 mutual
-theorem resolveTy_unres (cells : List (Cell × Ty)) (P : Cell → Bool) (a : Ann)
-    (hP : ∀ p ∈ quotedOf a, P p.1 = true → lookupCell p.1 cells = some (.data p.2)) :
-    resolveTy Cfg.fixed cells (unres P a) = direct a := by
+theorem resolveTy_unres {cval : Cell → Ty} {cells : List (Cell × Ty)} (hc : CellsOK cval cells) (P : Cell → Bool)
+    (a : Ann) (ha : AnnOK cval a) :
+    resolveTy Cfg.fixed cells (unres P a) = unres (stillRef P cells) a := by
   cases a with
   | quoted c n =>
-    have := hP (c, n) (by simp [quotedOf])
-    simp only [unres, direct]
-    cases hp : P c with
-    | true => simp [resolveTy, this hp]
-    | false => simp [resolveTy]
-  | list a => simp only [unres, direct, resolveTy]; rw [resolveTy_unres cells P a (by simpa [quotedOf] using hP)]
-  | dict a => simp only [unres, direct, resolveTy]; rw [resolveTy_unres cells P a (by simpa [quotedOf] using hP)]
-  | con _ a => simp only [unres, direct, resolveTy]; rw [resolveTy_unres cells P a (by simpa [quotedOf] using hP)]
-  | tuple as => simp only [unres, direct, resolveTy]; rw [resolveTyL_unres cells P as (by simpa [quotedOf] using hP)]
+    simp only [AnnOK] at ha
+    simp only [unres, stillRef]
+    by_cases hp : P c = true
+    · simp only [hp, if_true, Bool.true_and, resolveTy]
+      cases hl : lookupCell c cells with
+      | none => simp
+      | some v => simp [lookupCell_ok hc hl, ha]
+    · have hp' : P c = false := by simpa using hp
+      simp [hp', resolveTy]
+  | list a => simp only [unres, resolveTy]; rw [resolveTy_unres hc P a (by simpa [AnnOK] using ha)]
+  | dict a => simp only [unres, resolveTy]; rw [resolveTy_unres hc P a (by simpa [AnnOK] using ha)]
+  | con _ a => simp only [unres, resolveTy]; rw [resolveTy_unres hc P a (by simpa [AnnOK] using ha)]
+  | tuple as => simp only [unres, resolveTy]; rw [resolveTyL_unres hc P as (by simpa [AnnOK] using ha)]
   | union as =>
-    simp only [unres, direct, resolveTy, Cfg.fixed, if_true]
-    rw [← Cfg.fixed, resolveTyL_unres cells P as (by simpa [quotedOf] using hP)]
-  | _ => simp [unres, direct, resolveTy]
-theorem resolveTyL_unres (cells : List (Cell × Ty)) (P : Cell → Bool) (as : List Ann)
-    (hP : ∀ p ∈ quotedOfL as, P p.1 = true → lookupCell p.1 cells = some (.data p.2)) :
-    resolveTyL Cfg.fixed cells (unresL P as) = directL as := by
+    simp only [unres, resolveTy, Cfg.fixed, if_true]
+    rw [← Cfg.fixed, resolveTyL_unres hc P as (by simpa [AnnOK] using ha)]
+  | _ => simp [unres, resolveTy]
+theorem resolveTyL_unres {cval : Cell → Ty} {cells : List (Cell × Ty)} (hc : CellsOK cval cells) (P : Cell → Bool)
+    (as : List Ann) (ha : AnnsOK cval as) :
+    resolveTyL Cfg.fixed cells (unresL P as) = unresL (stillRef P cells) as := by
   cases as with
   | nil => rfl
   | cons a as =>
-    simp only [unresL, directL, resolveTyL]
-    rw [resolveTy_unres cells P a (fun p hp => hP p (by simp [quotedOfL, hp])),
-        resolveTyL_unres cells P as (fun p hp => hP p (by simp [quotedOfL, hp]))]
+    simp only [AnnsOK] at ha
+    simp only [unresL, resolveTyL]
+    rw [resolveTy_unres hc P a ha.1, resolveTyL_unres hc P as ha.2]
 end
 
+mutual
 theorem resolveTy_direct (cells : List (Cell × Ty)) (a : Ann) : resolveTy Cfg.fixed cells (direct a) = direct a := by
-  have := resolveTy_unres cells (fun _ => false) a (by intro p _ h; cases h)
-  rwa [unres_false] at this
+  cases a with
+  | list a => simp only [direct, resolveTy]; rw [resolveTy_direct cells a]
+  | dict a => simp only [direct, resolveTy]; rw [resolveTy_direct cells a]
+  | con _ a => simp only [direct, resolveTy]; rw [resolveTy_direct cells a]
+  | tuple as => simp only [direct, resolveTy]; rw [resolveTyL_direct cells as]
+  | union as =>
+    simp only [direct, resolveTy, Cfg.fixed, if_true]
+    rw [← Cfg.fixed, resolveTyL_direct cells as]
+  | _ => simp [direct, resolveTy]
+theorem resolveTyL_direct (cells : List (Cell × Ty)) (as : List Ann) :
+    resolveTyL Cfg.fixed cells (directL as) = directL as := by
+  cases as with
+  | nil => rfl
+  | cons a as => simp only [directL, resolveTyL]; rw [resolveTy_direct cells a, resolveTyL_direct cells as]
+end
+
+theorem resolveTy_curTy {cval : Cell → Ty} {cells : List (Cell × Ty)} (hc : CellsOK cval cells) (P : Cell → Bool)
+    (fa : FieldAnn) (ha : FieldAnnOK cval fa) :
+    resolveTy Cfg.fixed cells (curTy P fa) = curTy (stillRef P cells) fa := by
+  cases fa with
+  | plain a => exact resolveTy_unres hc P a ha
+  | str c e =>
+    simp only [curTy, stillRef]
+    by_cases hp : P c = true
+    · simp only [hp, if_true, Bool.true_and, resolveTy]
+      cases hl : lookupCell c cells with
+      | none => simp
+      | some v =>
+        have : v = direct e := by rw [lookupCell_ok hc hl]; exact ha
+        simp [this]
+    · have hp' : P c = false := by simpa using hp
+      simp [hp', resolveTy_direct]
 
 theorem pcells_nil : pcells [] = fun _ => false := by
   funext c; simp [pcells]
@@ -636,6 +718,25 @@ theorem lookup_parsers {cval : Cell → Ty} : ∀ {parsers : List (Name × PStat
     intro k' d' hk
     simp only [lookupD] at hk
     simp only [lookupP]
+    split at hk
+    · rename_i he
+      cases hk
+      simp only [he, if_true]
+      exact ⟨_, rfl, hc⟩
+    · rename_i he
+      simp only [he]
+      exact ih hk
+
+theorem lookup_parsers_rev {cval : Cell → Ty} : ∀ {parsers : List (Name × PState)} {defs : List (Name × Decl)},
+    ParsersOK cval parsers defs → ∀ {k : Name} {ps : PState}, lookupP k parsers = some ps →
+    ∃ d, lookupD k defs = some d ∧ ClassOK cval d ps := by
+  intro parsers defs h
+  induction h with
+  | nil => intro k ps hk; simp [lookupP] at hk
+  | cons hc _ ih =>
+    intro k' ps' hk
+    simp only [lookupP] at hk
+    simp only [lookupD]
     split at hk
     · rename_i he
       cases hk
@@ -680,7 +781,13 @@ theorem lookupP_setP_ne {k k' : Name} (p : PState) (hne : k' ≠ k) : ∀ (l : L
 
 theorem fields_of_resolved {cval : Cell → Ty} {d : Decl} {ps : PState} (hok : ClassOK cval d ps)
     (hp : ps.pending = []) : ps.fields = d.fields.map (fun fa => (fa.1, fa.2.direct)) := by
-  rw [hok.flds, hp, pcells_nil]
+  obtain ⟨P, hP, hf⟩ := hok.flds
+  have : P = fun _ => false := by
+    funext c
+    cases hpc : P c with
+    | false => rfl
+    | true => have := hP c hpc; rw [hp] at this; simp [pcells] at this
+  rw [hf, this]
   simp [curTy_false]
 
 theorem resolveTy_fieldDirect (cells : List (Cell × Ty)) (fa : FieldAnn) :
@@ -713,137 +820,161 @@ theorem parsers_length {cval : Cell → Ty} : ∀ {parsers : List (Name × PStat
   | nil => rfl
   | cons _ _ ih => simp [ih]
 
-/-- the field pass over the shared fields of ancestors that are already resolved changes nothing -/
-theorem passAnc_ok {cval : Cell → Ty} {defs : List (Name × Decl)} (cells : List (Cell × Ty)) :
+/-- the field pass applied to a parser's own fields keeps it consistent with its declaration as long as
+the new registry still lists every cell that is listed and not evaluated -/
+theorem classOK_fieldpass {cval : Cell → Ty} {d : Decl} {ps : PState} (hok : ClassOK cval d ps)
+    {cells : List (Cell × Ty)} (hc : CellsOK cval cells) (pend' : List Pending)
+    (hsub : ∀ c, pcells ps.pending c = true → (lookupCell c cells).isNone = true → pcells pend' c = true)
+    (hpend : ∀ p ∈ pend', p ∈ ps.pending) :
+    ClassOK cval d { ps with pending := pend', fields := ps.fields.map (fun p => (p.1, resolveTy Cfg.fixed cells p.2)) } := by
+  obtain ⟨P, hP, hf⟩ := hok.flds
+  refine ⟨⟨stillRef P cells, ?_, ?_⟩, fun p hp => hok.pend p (hpend p hp), hok.loc, hok.ign, hok.selfv, hok.bases, hok.rule, hok.anns⟩
+  · intro c hcs
+    simp only [stillRef, Bool.and_eq_true] at hcs
+    exact hsub c (hP c hcs.1) hcs.2
+  · simp only [hf, List.map_map]
+    apply List.map_congr_left
+    intro fa hfa
+    simp only [Function.comp]
+    rw [resolveTy_curTy hc P fa.2 (hok.anns fa hfa)]
+
+/-- the field pass over the fields a class shares with its ancestors, whatever their state -/
+theorem passAnc_ok {cval : Cell → Ty} {defs : List (Name × Decl)} {cells : List (Cell × Ty)} (hc : CellsOK cval cells) :
     ∀ (ancs : List Name) (parsers : List (Name × PState)), ParsersOK cval parsers defs →
-    (∀ a ∈ ancs, ∃ d p, lookupD a defs = some d ∧ lookupP a parsers = some p ∧ p.pending = []) →
     ParsersOK cval (passAnc (resolveTy Cfg.fixed cells) ancs parsers) defs ∧
-    ∀ k', lookupP k' (passAnc (resolveTy Cfg.fixed cells) ancs parsers) = lookupP k' parsers := by
+    ∀ k', (lookupP k' (passAnc (resolveTy Cfg.fixed cells) ancs parsers)).map (·.pending) =
+          (lookupP k' parsers).map (·.pending) := by
   intro ancs
   induction ancs with
-  | nil => intro parsers h _; exact ⟨h, fun _ => rfl⟩
+  | nil => intro parsers h; exact ⟨h, fun _ => rfl⟩
   | cons a as ih =>
-    intro parsers h hres
-    obtain ⟨d, p, hd, hp, hpe⟩ := hres a (by simp)
-    simp only [passAnc, hp]
-    obtain ⟨p', hp', hok⟩ := lookup_parsers h hd
-    have : p' = p := by rw [hp] at hp'; cases hp'; rfl
-    subst this
-    have hsame : p'.fields.map (fun q => (q.1, resolveTy Cfg.fixed cells q.2)) = p'.fields := by
-      rw [fields_of_resolved hok hpe, List.map_map]
-      apply List.map_congr_left
-      intro fa _
-      simp [Function.comp, resolveTy_fieldDirect]
-    rw [hsame]
-    have hself : ({ p' with fields := p'.fields } : PState) = p' := rfl
-    rw [hself]
-    obtain ⟨q1, q2⟩ := setP_ok h p' hd hok
-    have hlk : ∀ k', lookupP k' (setP a p' parsers) = lookupP k' parsers := by
-      intro k'
+    intro parsers h
+    simp only [passAnc]
+    cases hp : lookupP a parsers with
+    | none => exact ih parsers h
+    | some pa =>
+      simp only
+      obtain ⟨d, hd, hok⟩ := lookup_parsers_rev h hp
+      have hok' := classOK_fieldpass hok hc pa.pending (fun c h1 _ => h1) (fun p hp => hp)
+      obtain ⟨q1, q2⟩ := setP_ok h _ hd hok'
+      obtain ⟨i1, i2⟩ := ih _ q1
+      refine ⟨i1, fun k' => ?_⟩
+      rw [i2]
       by_cases hka : k' = a
-      · subst hka; rw [q2, hp]
-      · exact lookupP_setP_ne _ hka _
-    obtain ⟨i1, i2⟩ := ih (setP a p' parsers) q1 (by
-      intro b hb
-      obtain ⟨db, pb, h1, h2, h3⟩ := hres b (by simp [hb])
-      exact ⟨db, pb, h1, by rw [hlk]; exact h2, h3⟩)
-    exact ⟨i1, fun k' => by rw [i2, hlk]⟩
+      · subst hka; rw [q2, hp]; rfl
+      · rw [lookupP_setP_ne _ hka]
 
-theorem pack_state {cval : Cell → Ty} {defs : List (Name × Decl)} {s : State} {vis : List Name}
-    {cells : List (Cell × Ty)} {parsers : List (Name × PState)} {k : Name} {Y : PState}
-    (hvis : vis = boundNames defs) (hcells : CellsOK cval cells) (a1 : ParsersOK cval parsers defs)
-    (hl : lookupP k parsers = some Y) (hY : Y.pending = [])
-    (hfr : ∀ k', k' ≠ k → lookupP k' parsers = lookupP k' s.parsers) :
-    ∃ s1 ps1, (({ visible := vis, cells := cells, parsers := parsers } : State), true) = (s1, true) ∧
-      Inv cval s1 defs ∧ lookupP k s1.parsers = some ps1 ∧ ps1.pending = [] ∧
-      (∀ k', k' ≠ k → (lookupP k' s1.parsers).map (·.pending) = (lookupP k' s.parsers).map (·.pending)) :=
-  ⟨_, Y, rfl, ⟨hvis, hcells, a1⟩, hl, hY, fun k' hne => by simp only; rw [hfr k' hne]⟩
-
-theorem resolveOwn_ok {cval : Cell → Ty} {s : State} {defs : List (Name × Decl)} (h : Inv cval s defs)
-    {k : Name} {d : Decl} (hk : lookupD k defs = some d)
-    (hvis : ∀ n ∈ d.strNames, n ∈ boundNames defs ∨ (d.isFunc = false ∧ n = k))
-    (ancs : List Name) (hanc : ∀ a ∈ ancs, a = k ∨ ResolvedD defs s a) :
-    ∃ s1 ps1, resolveOwn Cfg.fixed s k ancs = (s1, true) ∧ Inv cval s1 defs ∧
-      lookupP k s1.parsers = some ps1 ∧ ps1.pending = [] ∧
-      (∀ k', k' ≠ k → (lookupP k' s1.parsers).map (·.pending) = (lookupP k' s.parsers).map (·.pending)) := by
-  obtain ⟨ps, hlk, hok⟩ := lookup_parsers h.parsers hk
-  simp only [resolveOwn, hlk]
-  by_cases hemp : ps.pending.isEmpty = true
-  · simp only [hemp, if_true]
-    exact ⟨s, ps, rfl, h, hlk, by simpa using hemp, fun _ _ => rfl⟩
-  · simp only [hemp]
-    -- every pending reference can be evaluated
-    have hneed : ∀ p ∈ ps.pending, p.need.all (visOf s (if ps.selfVis = true then some k else none)) = true := by
-      intro p hp
-      simp only [List.all_eq_true]
-      intro n hn
-      rcases hvis n ((hok.pend p hp).2 n hn) with hb | ⟨hf, hn⟩
-      · simp [visOf, h.vis, hb]
-      · simp [visOf, hok.selfv, hf, hn]
-    obtain ⟨r1, r2, r3, r4, _, r6⟩ := resolveLoop_all (cval := cval) _ ps.ignoreErr ps.pending s.cells h.cells
-      (fun p hp => (hok.pend p hp).1) hneed
-    have hres : (resolveLoop (visOf s (if ps.selfVis = true then some k else none)) ps.ignoreErr ps.pending s.cells).resolved = true := by
-      rw [r3]; simpa using hemp
-    simp only [r2, r1, hres, if_true, Bool.false_eq_true, if_false]
-    -- the resolved fields are the direct reading
-    have hflds : ps.fields.map (fun p => (p.1, resolveTy Cfg.fixed
-        (resolveLoop (visOf s (if ps.selfVis = true then some k else none)) ps.ignoreErr ps.pending s.cells).cells p.2))
-        = d.fields.map (fun fa => (fa.1, fa.2.direct)) := by
-      rw [hok.flds, List.map_map]
-      apply List.map_congr_left
-      intro fa hfa
-      have hlook : ∀ c, pcells ps.pending c = true →
-          lookupCell c (resolveLoop (visOf s (if ps.selfVis = true then some k else none)) ps.ignoreErr ps.pending s.cells).cells = some (cval c) := by
-        intro c hc
-        simp only [pcells, List.any_eq_true] at hc
-        obtain ⟨q, hq, hqc⟩ := hc
-        have : q.cell = c := by simpa using hqc
-        subst this
-        exact lookupCell_eq_of_isSome r4 (r6 q hq)
-      have hfaok := hok.anns fa hfa
-      rcases fa with ⟨f, fa⟩
-      cases fa with
-      | plain a =>
-        simp only [Function.comp, curTy, FieldAnn.direct]
-        rw [resolveTy_unres]
-        intro p hp hpc
-        rw [hlook p.1 hpc, quotedOf_ok a hfaok p hp]
-      | str c e =>
-        simp only [Function.comp, curTy, FieldAnn.direct]
-        cases hpc : pcells ps.pending c with
+/-- `resolveOwn` in general: the invariant survives (also when the loop raises or resolves only a part),
+other parsers' registries are untouched; when every listed reference can be evaluated it succeeds and
+leaves nothing pending. -/
+theorem resolveOwn_gen {cval : Cell → Ty} {s : State} {defs : List (Name × Decl)} (h : Inv cval s defs)
+    (k : Name) (ancs : List Name) :
+    Inv cval (resolveOwn Cfg.fixed s k ancs).1 defs ∧
+    (∀ k', k' ≠ k → (lookupP k' (resolveOwn Cfg.fixed s k ancs).1.parsers).map (·.pending) =
+                    (lookupP k' s.parsers).map (·.pending)) ∧
+    (∀ d, lookupD k defs = some d →
+      (∀ n ∈ d.strNames, n ∈ boundNames defs ∨ (d.isFunc = false ∧ n = k)) →
+      (resolveOwn Cfg.fixed s k ancs).2 = true ∧
+      ∃ ps1, lookupP k (resolveOwn Cfg.fixed s k ancs).1.parsers = some ps1 ∧ ps1.pending = []) := by
+  cases hlk : lookupP k s.parsers with
+  | none =>
+    simp only [resolveOwn, hlk]
+    refine ⟨h, fun _ _ => by first | rfl | trivial, ?_⟩
+    intro d hd _
+    obtain ⟨ps, hp, _⟩ := lookup_parsers h.parsers hd
+    rw [hlk] at hp; cases hp
+  | some ps =>
+    obtain ⟨d0, hd0, hok⟩ := lookup_parsers_rev h.parsers hlk
+    simp only [resolveOwn, hlk]
+    by_cases hemp : ps.pending.isEmpty = true
+    · simp only [hemp, if_true]
+      exact ⟨h, fun _ _ => by first | rfl | trivial, fun _ _ _ => ⟨by first | rfl | trivial, ps, hlk, by simpa using hemp⟩⟩
+    · simp only [hemp]
+      obtain ⟨r1, _, r3, r4, r5⟩ := resolveLoop_gen (cval := cval)
+        (visOf s (if ps.selfVis = true then some k else none)) ps.ignoreErr ps.pending s.cells h.cells
+        (fun p hp => (hok.pend p hp).1)
+      -- when everything listed can be evaluated
+      have hall : ∀ d, lookupD k defs = some d →
+          (∀ n ∈ d.strNames, n ∈ boundNames defs ∨ (d.isFunc = false ∧ n = k)) →
+          ∀ p ∈ ps.pending, p.need.all (visOf s (if ps.selfVis = true then some k else none)) = true := by
+        intro d hd hvis p hp
+        rw [hd0] at hd; cases hd
+        simp only [List.all_eq_true]
+        intro n hn
+        rcases hvis n ((hok.pend p hp).2 n hn) with hb | ⟨hf, hn⟩
+        · simp [visOf, h.vis, hb]
+        · simp [visOf, hok.selfv, hf, hn]
+      cases hr : (resolveLoop (visOf s (if ps.selfVis = true then some k else none)) ps.ignoreErr ps.pending s.cells).raised with
+      | true =>
+        simp only [if_true, Cfg.fixed]
+        refine ⟨⟨h.vis, r1, h.parsers⟩, fun _ _ => by first | rfl | trivial, ?_⟩
+        intro d hd hvis
+        have := (r5 (hall d hd hvis)).2.1
+        rw [hr] at this; cases this
+      | false =>
+        simp only [Bool.false_eq_true, if_false]
+        have hcells : CellsOK cval (if ps.isLocal = true then
+            (resolveLoop (visOf s (if ps.selfVis = true then some k else none)) ps.ignoreErr ps.pending s.cells).cells.filter
+              (fun p => !(resolveLoop (visOf s (if ps.selfVis = true then some k else none)) ps.ignoreErr ps.pending s.cells).popped.contains p.1)
+            else (resolveLoop (visOf s (if ps.selfVis = true then some k else none)) ps.ignoreErr ps.pending s.cells).cells) := by
+          split
+          · intro q hq
+            exact r1 q (List.mem_filter.mp hq).1
+          · exact r1
+        -- the parser's own new state
+        have hsub : ∀ c, pcells ps.pending c = true →
+            (lookupCell c (resolveLoop (visOf s (if ps.selfVis = true then some k else none)) ps.ignoreErr ps.pending s.cells).cells).isNone = true →
+            pcells (resolveLoop (visOf s (if ps.selfVis = true then some k else none)) ps.ignoreErr ps.pending s.cells).kept c = true := by
+          intro c hc hnone
+          simp only [pcells, List.any_eq_true] at hc ⊢
+          obtain ⟨q, hq, hqc⟩ := hc
+          rcases r3 hr q hq with hk | hs
+          · exact ⟨q, hk, hqc⟩
+          · have : q.cell = c := by simpa using hqc
+            rw [this] at hs
+            cases hl : lookupCell c (resolveLoop (visOf s (if ps.selfVis = true then some k else none)) ps.ignoreErr ps.pending s.cells).cells <;> simp [hl] at hs hnone
+        cases hres : (resolveLoop (visOf s (if ps.selfVis = true then some k else none)) ps.ignoreErr ps.pending s.cells).resolved with
+        | false =>
+          -- nothing could be evaluated (a function with unresolvable references): only the registry is re-listed
+          simp only [Bool.false_eq_true, if_false]
+          -- `resolved = false` means nothing was popped: the kept list is the whole list
+          have hsame := resolveLoop_unresolved (visOf s (if ps.selfVis = true then some k else none)) ps.ignoreErr ps.pending s.cells hr hres
+          have hok1 : ClassOK cval d0 { ps with pending := (resolveLoop (visOf s (if ps.selfVis = true then some k else none)) ps.ignoreErr ps.pending s.cells).kept } := by
+            rw [hsame.1]; exact hok
+          obtain ⟨p1, p2⟩ := setP_ok h.parsers _ hd0 hok1
+          refine ⟨⟨h.vis, hcells, p1⟩, fun k' hne => by rw [lookupP_setP_ne _ hne], ?_⟩
+          intro d hd hvis
+          have := (r5 (hall d hd hvis)).2.2
+          rw [hres] at this
+          have hne : ps.pending ≠ [] := by intro h0; simp [h0] at hemp
+          cases hpd : ps.pending with
+          | nil => exact absurd hpd hne
+          | cons _ _ => rw [hpd] at this; simp at this
         | true =>
-          simp only [if_true, resolveTy, hlook c hpc]
-          exact congrArg _ hfaok
-        | false => simp [resolveTy_direct]
-    have hok1 : ClassOK cval d { ps with pending := [], fields := ps.fields.map (fun p => (p.1, resolveTy Cfg.fixed
-        (resolveLoop (visOf s (if ps.selfVis = true then some k else none)) ps.ignoreErr ps.pending s.cells).cells p.2)) } := by
-      refine ⟨?_, by intro p hp; simp at hp, hok.loc, hok.ign, hok.selfv, hok.bases, hok.rule, hok.anns⟩
-      simp only [hflds, pcells_nil]
-      apply List.map_congr_left
-      intro fa _
-      simp [curTy_false]
-    obtain ⟨p1, p2⟩ := setP_ok h.parsers _ hk hok1
-    have hcells : CellsOK cval (if ps.isLocal = true then
-        (resolveLoop (visOf s (if ps.selfVis = true then some k else none)) ps.ignoreErr ps.pending s.cells).cells.filter
-          (fun p => !(resolveLoop (visOf s (if ps.selfVis = true then some k else none)) ps.ignoreErr ps.pending s.cells).popped.contains p.1)
-        else (resolveLoop (visOf s (if ps.selfVis = true then some k else none)) ps.ignoreErr ps.pending s.cells).cells) := by
-      split
-      · intro q hq
-        exact r4 q (List.mem_filter.mp hq).1
-      · exact r4
-    -- the shared fields of the (already resolved) ancestors are left as they are
-    obtain ⟨a1, a2⟩ := passAnc_ok (cval := cval) (defs := defs)
-      (resolveLoop (visOf s (if ps.selfVis = true then some k else none)) ps.ignoreErr ps.pending s.cells).cells
-      ancs _ p1 (by
-        intro a ha
-        rcases hanc a ha with hak | ⟨da, pa, h1, h2, h3⟩
-        · subst hak; exact ⟨d, _, hk, p2, rfl⟩
-        · by_cases hak : a = k
-          · subst hak; exact ⟨d, _, hk, p2, rfl⟩
-          · exact ⟨da, pa, h1, by rw [lookupP_setP_ne _ hak]; exact h2, h3⟩)
-    have hl := a2 k
-    rw [p2] at hl
-    exact pack_state h.vis hcells a1 hl rfl (fun k' hne => by rw [a2, lookupP_setP_ne _ hne])
+          simp only [if_true]
+          have hok1 := classOK_fieldpass hok r1
+            (resolveLoop (visOf s (if ps.selfVis = true then some k else none)) ps.ignoreErr ps.pending s.cells).kept hsub r4
+          obtain ⟨p1, p2⟩ := setP_ok h.parsers _ hd0 hok1
+          obtain ⟨a1, a2⟩ := passAnc_ok (cval := cval) (defs := defs) r1 ancs _ p1
+          refine ⟨⟨h.vis, hcells, a1⟩, ?_, ?_⟩
+          · intro k' hne
+            rw [a2, lookupP_setP_ne _ hne]
+          · intro d hd hvis
+            refine ⟨by first | rfl | trivial, ?_⟩
+            have hk0 := (r5 (hall d hd hvis)).1
+            have := a2 k
+            rw [p2] at this
+            simp only at this ⊢
+            cases hl : lookupP k (passAnc (resolveTy Cfg.fixed
+                (resolveLoop (visOf s (if ps.selfVis = true then some k else none)) ps.ignoreErr ps.pending s.cells).cells) ancs
+                (setP k { ps with pending := (resolveLoop (visOf s (if ps.selfVis = true then some k else none)) ps.ignoreErr ps.pending s.cells).kept,
+                                  fields := ps.fields.map (fun p => (p.1, resolveTy Cfg.fixed
+                                    (resolveLoop (visOf s (if ps.selfVis = true then some k else none)) ps.ignoreErr ps.pending s.cells).cells p.2)) } s.parsers)) with
+            | none => rw [hl] at this; simp at this
+            | some ps1 =>
+              rw [hl] at this
+              simp only [Option.map_some, Option.some.injEq] at this
+              exact ⟨ps1, rfl, by rw [this, hk0]⟩
 
 /-! ### the walk up the bases -/
 
@@ -942,25 +1073,29 @@ theorem chainFD_in {defs : List (Name × Decl)} {S : List Name} (hS : Closed def
 
 theorem resolveChain_ok {cval : Cell → Ty} {defs : List (Name × Decl)} {S : List Name} (hS : Closed defs S) :
     ∀ (L : List (Name × List Name)) (R : List Name) (s : State), Inv cval s defs → (∀ p ∈ L, p.1 ∈ S) →
-    ChainClosed R L → (∀ r ∈ R, ResolvedD defs s r) →
+    (∀ r ∈ R, ResolvedD defs s r) →
     ∃ s1, resolveChain Cfg.fixed s L = (s1, true) ∧ Inv cval s1 defs ∧
       (∀ r, r ∈ L.map (·.1) ∨ r ∈ R → ResolvedD defs s1 r) := by
   intro L
   induction L with
   | nil =>
-    intro R s h _ _ hR
+    intro R s h _ hR
     refine ⟨s, rfl, h, ?_⟩
     intro r hr
     rcases hr with hr | hr
     · simp at hr
     · exact hR r hr
   | cons node L ih =>
-    intro R s h hin hcl hR
+    intro R s h hin hR
     rcases node with ⟨a, ancs⟩
-    simp only [ChainClosed] at hcl
     obtain ⟨d, hd, _, hvis, _⟩ := hS a (hin (a, ancs) (by simp))
-    obtain ⟨s1, ps1, e1, i1, l1, pe1, fr1⟩ := resolveOwn_ok h hd hvis ancs
-      (fun b hb => Or.inr (hR b (hcl.1 b hb)))
+    obtain ⟨i1, fr1, g1⟩ := resolveOwn_gen h a ancs
+    obtain ⟨e1', ps1, l1, pe1⟩ := g1 d hd hvis
+    rcases hro : resolveOwn Cfg.fixed s a ancs with ⟨s1, b1⟩
+    rw [hro] at i1 fr1 e1' l1
+    simp only at i1 fr1 e1' l1
+    subst e1'
+    have e1 := hro
     have hR1 : ∀ r ∈ a :: R, ResolvedD defs s1 r := by
       intro r hr
       by_cases hra : r = a
@@ -977,7 +1112,7 @@ theorem resolveChain_ok {cval : Cell → Ty} {defs : List (Name × Decl)} {S : L
         | some pr1 =>
           simp only [hl, Option.map_some, Option.some.injEq] at this
           exact ⟨dr, pr1, h1, hl, by rw [this, h3]⟩
-    obtain ⟨s2, e2, i2, r2⟩ := ih (a :: R) s1 i1 (fun p hp => hin p (by simp [hp])) hcl.2 hR1
+    obtain ⟨s2, e2, i2, r2⟩ := ih (a :: R) s1 i1 (fun p hp => hin p (by simp [hp])) hR1
     refine ⟨s2, by simp only [resolveChain, e1, e2], i2, ?_⟩
     intro r hr
     apply r2
@@ -1030,13 +1165,209 @@ theorem resolveParser_ok {cval : Cell → Ty} {s : State} {defs : List (Name × 
   simp only [resolveParser, Cfg.fixed, if_true]
   rw [← Cfg.fixed, chainF_eq h.parsers, hlen]
   obtain ⟨s1, e1, i1, r1⟩ := resolveChain_ok hS (chainFD defs.length defs k) [] s h
-    (chainFD_in hS _ k hkS) (chainFD_closed defs _ k []) (by intro r hr; simp at hr)
+    (chainFD_in hS _ k hkS) (by intro r hr; simp at hr)
   have hk1 : ResolvedD defs s1 k := r1 k (Or.inl (by
     cases defs.length <;> simp [chainFD]))
   obtain ⟨_, p1, _, hp1, _⟩ := hk1
   refine ⟨s1, p1, e1, i1, hp1, ?_⟩
   rw [parsers_length i1.parsers]
   exact allFieldsF_eq i1 _ k (fun p hp => r1 p.1 (Or.inl (List.mem_map.mpr ⟨p, hp, rfl⟩)))
+
+/-! ### the invariant survives every use, also one that cannot be resolved -/
+
+theorem resolveChain_inv {cval : Cell → Ty} {defs : List (Name × Decl)} :
+    ∀ (L : List (Name × List Name)) (s : State), Inv cval s defs → Inv cval (resolveChain Cfg.fixed s L).1 defs := by
+  intro L
+  induction L with
+  | nil => intro s h; exact h
+  | cons node L ih =>
+    intro s h
+    have i1 := (resolveOwn_gen h node.1 node.2).1
+    simp only [resolveChain]
+    rcases hro : resolveOwn Cfg.fixed s node.1 node.2 with ⟨s1, b1⟩
+    rw [hro] at i1
+    cases b1 with
+    | false => exact i1
+    | true => exact ih s1 i1
+
+theorem resolveParser_inv {cval : Cell → Ty} {s : State} {defs : List (Name × Decl)} (h : Inv cval s defs) (k : Name) :
+    Inv cval (resolveParser Cfg.fixed s k).1 defs := by
+  simp only [resolveParser, Cfg.fixed, if_true]
+  rw [← Cfg.fixed]
+  exact resolveChain_inv _ s h
+
+theorem mapS_inv {α : Type} (I : State → Prop) (f : State → α → State × Outcome)
+    (hf : ∀ s x, I s → I (f s x).1) : ∀ (xs : List α) (s : State), I s → I (mapS f s xs).1 := by
+  intro xs
+  induction xs with
+  | nil => intro s h; exact h
+  | cons x xs ih =>
+    intro s h
+    have h1 := hf s x h
+    rcases hfx : f s x with ⟨s1, o⟩
+    rw [hfx] at h1
+    have h2 := ih s1 h1
+    cases o with
+    | ok v =>
+      simp only [mapS, hfx]
+      rcases hm : mapS f s1 xs with ⟨s2, r⟩
+      rw [hm] at h2
+      cases r <;> exact h2
+    | perr => simpa [mapS, hfx] using h1
+    | nameErr => simpa [mapS, hfx] using h1
+    | fuel => simpa [mapS, hfx] using h1
+
+theorem firstOk_inv {α : Type} (I : State → Prop) (f : State → α → State × Outcome)
+    (hf : ∀ s x, I s → I (f s x).1) : ∀ (xs : List α) (s : State), I s → I (firstOk f s xs).1 := by
+  intro xs
+  induction xs with
+  | nil => intro s h; exact h
+  | cons x xs ih =>
+    intro s h
+    have h1 := hf s x h
+    rcases hfx : f s x with ⟨s1, o⟩
+    rw [hfx] at h1
+    have h2 := ih s1 h1
+    cases o with
+    | ok v => simpa [firstOk, hfx] using h1
+    | fuel => simpa [firstOk, hfx] using h1
+    | perr => simpa [firstOk, hfx] using h2
+    | nameErr => simpa [firstOk, hfx] using h2
+
+theorem fieldsS_inv (I : State → Prop) (f : State → Ty → Val → State × Outcome) (kvs : List (Nat × Val))
+    (hf : ∀ s t x, I s → I (f s t x).1) : ∀ (fields : List (Nat × Ty)) (s : State), I s → I (fieldsS f kvs s fields).1 := by
+  intro fields
+  induction fields with
+  | nil => intro s h; exact h
+  | cons p fields ih =>
+    intro s h
+    rcases p with ⟨n, t⟩
+    cases hl : lookupV n kvs with
+    | none => simp only [fieldsS, hl]; exact ih s h
+    | some x =>
+      have h1 := hf s t x h
+      rcases hfx : f s t x with ⟨s1, o⟩
+      rw [hfx] at h1
+      have h2 := ih s1 h1
+      cases o with
+      | ok v =>
+        simp only [fieldsS, hl, hfx]
+        rcases hm : fieldsS f kvs s1 fields with ⟨s2, r⟩
+        rw [hm] at h2
+        cases r <;> exact h2
+      | perr => simpa [fieldsS, hl, hfx] using h1
+      | nameErr => simpa [fieldsS, hl, hfx] using h1
+      | fuel => simpa [fieldsS, hl, hfx] using h1
+
+/-- whatever is parsed against whatever type, resolvable or not, the state stays consistent with the
+declarations -/
+theorem parseTy_inv {cval : Cell → Ty} (leaf : Val → Option Val) (chk : Nat → Val → Bool) {defs : List (Name × Decl)} :
+    ∀ (fuel : Nat) (s : State) (ty : Ty) (v : Val), Inv cval s defs →
+    Inv cval (parseTy Cfg.fixed leaf chk fuel s ty v).1 defs := by
+  intro fuel
+  induction fuel with
+  | zero => intro s ty v h; exact h
+  | succ fuel ih =>
+    intro s ty v h
+    cases ty with
+    | int => simpa [parseTy] using h
+    | none => simpa [parseTy] using h
+    | fref c =>
+      simp only [parseTy]
+      cases lookupCell c s.cells with
+      | none => exact h
+      | some t => exact ih s t v h
+    | list a =>
+      cases v with
+      | list xs =>
+        simp only [parseTy]
+        have := mapS_inv (fun s => Inv cval s defs) (fun s x => parseTy Cfg.fixed leaf chk fuel s a x)
+          (fun s x hs => ih s a x hs) xs s h
+        rcases hm : mapS (fun s x => parseTy Cfg.fixed leaf chk fuel s a x) s xs with ⟨s1, r⟩
+        rw [hm] at this
+        cases r <;> exact this
+      | _ => simpa [parseTy] using h
+    | dict a =>
+      cases v with
+      | dict kvs =>
+        simp only [parseTy]
+        have := mapS_inv (fun s => Inv cval s defs) (fun s (kv : Nat × Val) => parseTy Cfg.fixed leaf chk fuel s a kv.2)
+          (fun s x hs => ih s a x.2 hs) kvs s h
+        rcases hm : mapS (fun s (kv : Nat × Val) => parseTy Cfg.fixed leaf chk fuel s a kv.2) s kvs with ⟨s1, r⟩
+        rw [hm] at this
+        cases r <;> exact this
+      | _ => simpa [parseTy] using h
+    | tuple ts =>
+      cases v with
+      | list xs =>
+        simp only [parseTy]
+        by_cases hlen : (xs.length != ts.length) = true
+        · simpa [hlen] using h
+        · simp only [hlen]
+          have := mapS_inv (fun s => Inv cval s defs) (fun s (tx : Ty × Val) => parseTy Cfg.fixed leaf chk fuel s tx.1 tx.2)
+            (fun s x hs => ih s x.1 x.2 hs) (ts.zip xs) s h
+          rcases hm : mapS (fun s (tx : Ty × Val) => parseTy Cfg.fixed leaf chk fuel s tx.1 tx.2) s (ts.zip xs) with ⟨s1, r⟩
+          rw [hm] at this
+          cases r <;> exact this
+      | _ => simpa [parseTy] using h
+    | union ts =>
+      have hfo := firstOk_inv (fun s => Inv cval s defs) (fun s t => parseTy Cfg.fixed leaf chk fuel s t v)
+        (fun s t hs => ih s t v hs) ts s h
+      simp only [parseTy]
+      cases v with
+      | none =>
+        cases ts.any isNoneTy with
+        | true => exact h
+        | false => exact hfo
+      | int i => exact hfo
+      | str x => exact hfo
+      | list xs => exact hfo
+      | tup xs => exact hfo
+      | dict kvs => exact hfo
+      | inst k fs => exact hfo
+    | con c t =>
+      simp only [parseTy]
+      have := ih s t v h
+      rcases hp : parseTy Cfg.fixed leaf chk fuel s t v with ⟨s1, o⟩
+      rw [hp] at this
+      exact this
+    | data k =>
+      simp only [parseTy]
+      cases (lookupP k s.parsers).bind (·.rule) with
+      | some c => exact h
+      | none =>
+        cases v with
+        | dict kvs =>
+          simp only
+          have i1 := resolveParser_inv h k
+          rcases hr : resolveParser Cfg.fixed s k with ⟨s1, b1⟩
+          rw [hr] at i1
+          cases b1 with
+          | false => exact i1
+          | true =>
+            simp only
+            cases hl : lookupP k s1.parsers with
+            | none => exact i1
+            | some ps1 =>
+              simp only
+              have := fieldsS_inv (fun s => Inv cval s defs) (fun s t x => parseTy Cfg.fixed leaf chk fuel s t x) kvs
+                (fun s t x hs => ih s t x hs) (allFieldsF s1.parsers.length s1.parsers k) s1 i1
+              rcases hm : fieldsS (fun s t x => parseTy Cfg.fixed leaf chk fuel s t x) kvs s1
+                  (allFieldsF s1.parsers.length s1.parsers k) with ⟨s2, r⟩
+              rw [hm] at this
+              cases r <;> exact this
+        | _ => exact h
+
+theorem useTop_inv {cval : Cell → Ty} (leaf : Val → Option Val) (chk : Nat → Val → Bool) (fuel : Nat) {s : State}
+    {defs : List (Name × Decl)} (h : Inv cval s defs) (k : Name) (kvs : List (Nat × Val)) :
+    Inv cval (useTop Cfg.fixed leaf chk fuel s k kvs).1 defs := by
+  simp only [useTop]
+  have i1 := resolveParser_inv h k
+  rcases hr : resolveParser Cfg.fixed s k with ⟨s1, b1⟩
+  rw [hr] at i1
+  cases b1 with
+  | false => exact i1
+  | true => exact parseTy_inv leaf chk fuel s1 (.data k) (.dict kvs) i1
 
 /-! ### parsing: the threaded state never matters once the invariant holds -/
 
